@@ -505,6 +505,9 @@ class Interp:
                 if type(selfobj) is dict and name in ('get', 'pop', 'setdefault', '__contains__') and args \
                         and contains_sym(args[0], 0):
                     raise Unsupported('dict.%s with symbolic key' % name)
+                if self.loop_guards and name in ('append', 'extend', 'insert', 'pop', 'clear', 'reverse',
+                                                 'setdefault', 'update'):
+                    self.note_heap_write(selfobj, None)
                 return self._native(f, args, kwargs)
         if any(contains_sym(a) for a in args) or any(contains_sym(a) for a in kwargs.values()) or \
                 (selfobj is not None and contains_sym(selfobj)):
@@ -664,9 +667,13 @@ class Interp:
         if isinstance(obj, (SOpt, SChoice)):
             obj = self.resolve(obj)
         if isinstance(obj, Opaque):
+            if self.loop_guards:
+                self.note_heap_write(obj, name)
             return self.reg.opaque_setattr(self, obj, name, value)
         if isinstance(obj, Sym):
             raise PyRaise(AttributeError(name))
+        if self.loop_guards:
+            self.note_heap_write(obj, name)
         cls = type(obj)
         for k in cls.__mro__:
             if name in k.__dict__:
@@ -1571,6 +1578,8 @@ class Interp:
         if isinstance(obj, Opaque):
             return self.reg.call_opaque(self, obj, '__setitem__', [idx, value], {})
         from . import models
+        if self.loop_guards:
+            self.note_heap_write(obj, None)
         if isinstance(obj, models.SMap):
             return obj.setitem(self, idx, value)
         from .mlist import MList
@@ -1596,6 +1605,8 @@ class Interp:
                 if isinstance(obj, (SOpt, SChoice)):
                     obj = self.resolve(obj)
                 from . import models
+                if self.loop_guards:
+                    self.note_heap_write(obj, None)
                 if isinstance(obj, models.SMap):
                     obj.delitem(self, idx)
                     continue
